@@ -208,3 +208,95 @@ func typeGate(p *core.Prog, r *core.Result) {
 	r.Stats["unsafe_map_or_interface_reinterpreters"] = len(targets)
 	r.Floor("reinterpreter_selections", selections, 10)
 }
+
+// EMPTY-IFACE-GATE (unfold side): the interface{} unfolders store whatever
+// the stream delivers (a string, a float64, a map) through *interface{},
+// *[]interface{} or *map[string]interface{}. Only the EMPTY interface can hold
+// every such value; a non-empty interface has an itab where the empty one has
+// a type word. In the functions that select an unfolder for a reflect.Type,
+// every path that has seen Kind() == reflect.Interface for a type value and
+// returns an unfolder has also seen NumMethod() == 0 for the same type value.
+
+type eiState struct {
+	ifc  valueSet // type values whose Kind()==Interface on this path
+	zero valueSet // type values whose NumMethod()==0 on this path
+}
+type eiClient struct {
+	p   *core.Prog
+	fn  *ssa.Function
+	num *valueNumbering
+	bad string
+	n   int
+}
+
+func (k *eiClient) Key(s eiState) string                               { return s.ifc.key() + "|" + s.zero.key() }
+func (k *eiClient) Phis(s eiState, _ *ssa.BasicBlock, _ int) eiState  { return s }
+func (k *eiClient) Instr(s eiState, _ ssa.Instruction) (eiState, bool, []eiState) {
+	return s, true, nil
+}
+func typeMethodCall(v ssa.Value, name string) (ssa.Value, bool) {
+	c, ok := v.(*ssa.Call)
+	if !ok || !c.Common().IsInvoke() || c.Common().Method.Name() != name || !isReflectType(c.Common().Value.Type()) {
+		return nil, false
+	}
+	return c.Common().Value, true
+}
+func (k *eiClient) Branch(s eiState, cond ssa.Value, outcome bool) (eiState, bool) {
+	bo, ok := cond.(*ssa.BinOp)
+	if !ok || (bo.Op != token.EQL && bo.Op != token.NEQ) {
+		return s, true
+	}
+	eq := outcome == (bo.Op == token.EQL)
+	if tv, ok := typeMethodCall(bo.X, "Kind"); ok {
+		if c, ok := constIntVal(bo.Y); ok && c == 20 && eq { // reflect.Interface
+			k.n++
+			s.ifc = s.ifc.with(k.num.id(tv))
+		}
+	}
+	if tv, ok := typeMethodCall(bo.X, "NumMethod"); ok {
+		if c, ok := constIntVal(bo.Y); ok && c == 0 && eq {
+			s.zero = s.zero.with(k.num.id(tv))
+		}
+	}
+	return s, true
+}
+func (k *eiClient) Return(s eiState, ret *ssa.Return) {
+	if len(ret.Results) == 0 || isNilConst(ret.Results[0]) {
+		return
+	}
+	for _, id := range s.ifc.ids {
+		if !s.zero.has(id) {
+			k.bad = "returns an unfolder at " + k.p.Pos(token.Pos(instrPos(ret))) + " on a path that saw Kind()==reflect.Interface but not NumMethod()==0 for the same type"
+		}
+	}
+}
+
+func emptyIfaceGate(p *core.Prog, r *core.Result) {
+	n := 0
+	for _, f := range p.ModFuncs() {
+		pk := core.FuncPkg(f)
+		if pk == nil || pk.Name() != "gotype" || f.Signature.Results().Len() == 0 {
+			continue
+		}
+		rn := namedOf(f.Signature.Results().At(0).Type())
+		if rn == nil || (rn.Obj().Name() != "ptrUnfolder" && rn.Obj().Name() != "reflUnfolder") {
+			continue
+		}
+		k := &eiClient{p: p, fn: f, num: newNumbering()}
+		_, capped := WalkPaths[eiState](k, f.Blocks[0], 0, eiState{}, 400000, nil)
+		if k.n == 0 {
+			continue
+		}
+		n++
+		fkey := core.FuncKey(f)
+		switch {
+		case capped:
+			r.Undecided(".EMPTY-IFACE-GATE", fkey, "state cap hit")
+		case k.bad != "":
+			r.Fail(".EMPTY-IFACE-GATE", fkey+"|iface", p.Pos(f.Pos()), fkey+" "+k.bad+": a target whose (element) type is a non-empty interface (fmt.Stringer, error) is written through the interface{} unfolders, which store a type word where the interface expects an itab (memory corruption; the first method call crashes)", "")
+		default:
+			r.Ok(".EMPTY-IFACE-GATE", p.Pos(f.Pos()), fkey+": interface{} unfolders are selected only for empty interface types")
+		}
+	}
+	r.Floor("unfolder_selectors_with_interface_arm", n, 2)
+}
